@@ -53,8 +53,8 @@ CHECKS = {
          "Process death = SIGKILL of the gengo process; file-system crash consistency (unsynced data) is not modelled. Trusted: the verif hook's placement, sha256 snapshots.",
          "DESIGN.md 4/C02"),
  "C04": ("exploration",
-         "metamorphic runtime monitor: the same adversarial module generated repeatedly in-process (fresh map orders per load), in fresh child processes, under every entrypoint permutation and again on its own result; outputs and call sequences compared byte for byte",
-         "Per module (8 quick / ~150 thorough; >= 6 name clashes each): 5-7 in-process repetitions + 2-3 fresh processes + 10 entrypoint permutations/duplications from byte-identical restored trees at the same path, plus second and third runs on the result; all generated files, gengo.sum and the ordered GenerateType call log must be identical, and re-runs must change no generated file. An order dependence of the D11 kind escapes a module with probability < 2^-30.",
+         "metamorphic runtime monitor: the same adversarial module generated repeatedly in-process (fresh map orders per load), in fresh child processes, under every entrypoint permutation and again on its own result; outputs compared byte for byte (the per-package dispatch order is part of the output)",
+         "Per module (8 quick / ~150 thorough; >= 6 name clashes each): 5-7 in-process repetitions + 2-3 fresh processes + 10 entrypoint permutations/duplications from byte-identical restored trees at the same path, plus second and third runs on the result; all generated files (which carry the per-package call ordinals) and gengo.sum must be identical, and re-runs must change no generated file. An order dependence of the D11 kind escapes a module with probability < 2^-30.",
          "Trusted: byte comparison. The observing generator's own iteration is sorted; it ignores what generated files add to the package (no feedback).",
          "DESIGN.md 4/C04"),
  "C05": ("exploration",
